@@ -14,9 +14,10 @@ Expected normal form (what the statement says the default cleanup returns):
 
 Template options (``LOpt`` / ``MOpt``) mirror the constructor arguments of ListProds / MapProds; the
 grammar that embeds them is built in checks/c05_templates.py:
-    VALUE -> WORD | <list symbol> | <map symbol> | SWRAP          SWRAP -> '@' SEQ ';'
-    a list without brackets or an optional list is embedded as LWRAP -> '<' LIST '>'  (so that an
-    absent list "<>" differs from an empty one "<[]>"); same for maps with MWRAP -> '(' MAP ')'.
+    VALUE -> WORD | <list symbol> | <map symbol> | SWRAP          SWRAP -> '@' SIN ';'  SIN -> SINB -> SEQ
+    a list without brackets or an optional list is embedded as LWRAP -> '<' LIN '>', LIN -> LINB -> LIST
+    (so that an absent list "<>" differs from an empty one "<[]>", and the closing token reaches the
+    nullable template symbol through two enclosing symbols); same for maps with MWRAP -> '(' MIN ')'.
 """
 
 import itertools
@@ -415,29 +416,35 @@ EXOTIC_GAP_FEATURES = {
 }
 
 
-def layout_features(n_tokens, name):
-    """Which kinds of gap a text of n tokens in this layout contains (gaps are assigned by position)."""
-    gaps = LAYOUTS[name]
-    return {EXOTIC_GAP_FEATURES[g] for g in (gaps[i % len(gaps)] for i in range(n_tokens + 1))
-            if g in EXOTIC_GAP_FEATURES}
+def _gap(gaps, i, n_tokens):
+    # gaps are assigned by position; the cycle is rotated by the number of tokens so that across the data
+    # every kind of gap meets every kind of token boundary
+    return gaps[(i + n_tokens) % len(gaps)]
 
 
 def layout(tokens, name):
     """Join tokens with the gaps of a layout (also before the first and after the last token)."""
     gaps = LAYOUTS[name]
     out = []
-    n = len(gaps)
+    nt = len(tokens)
     prev = None
     for i, tok in enumerate(tokens):
-        g = gaps[i % n]
+        g = _gap(gaps, i, nt)
         if g == "" and prev is not None and prev[-1].isalnum() and tok[0].isalnum():
             g = " "
         if not (i == 0 and name == "tight"):
             out.append(g)
         out.append(tok)
         prev = tok
-    out.append(gaps[len(tokens) % n])
+    out.append(_gap(gaps, nt, nt))
     return "".join(out)
+
+
+def layout_features(n_tokens, name):
+    """Which kinds of gap a text of n tokens in this layout contains."""
+    gaps = LAYOUTS[name]
+    return {EXOTIC_GAP_FEATURES[g] for g in (_gap(gaps, i, n_tokens) for i in range(n_tokens + 1))
+            if g in EXOTIC_GAP_FEATURES}
 
 
 # ------------------------------------------------------------------------------- normaliser
